@@ -248,6 +248,11 @@ func runRefReceiver(ep *endpoint, cfg refRecvCfg) *refRecvResult {
 		mu.Unlock()
 	}
 	defer func() {
+		if res.Err != "" {
+			// the reading loop gave up: from now on the peer's sends fail (as on a transport whose stream has ended);
+			// otherwise the writer goroutine below and the peer's blocked senders would wait for each other
+			ep.closeSend()
+		}
 		mu.Lock()
 		closed = true
 		cond.Broadcast()
